@@ -371,22 +371,23 @@ class C15c(Obligation):
         runs = []
         ctx.int('unused')
 
-        def body(obj, depth=0):
-            runs.append((obj.tag, id(obj.inference_state), depth))
+        def body(obj):
+            depth = len(runs)
+            runs.append((obj.tag, id(obj.inference_state)))
             if depth < 3 and plan[depth] < 3:
-                inner = memo(objs[plan[depth]], depth=depth + 1)
+                inner = memo(objs[plan[depth]])
                 return ('value', obj.tag, depth, inner)
             return ('value', obj.tag, depth, None)
         memo = jcache._memoize_default(default='DEFAULT')(body)
         ctx.force(memo)
-        out = ctx.call(memo, objs[0], depth=0)
+        out = ctx.call(memo, objs[0])
         ctx.check(out.exc is None, 'never raises, never recurses without bound')
         if out.exc is not None:
             return
         # the body runs at most once per (object, kwargs) key that is in flight
-        keys = [(t, s, d) for t, s, d in runs]
+        keys = list(runs)
         ctx.check(len(keys) == len(set(keys)), 'no key is computed twice while it is in flight')
-        ctx.check(len(runs) <= 4, 'the recursion is cut by the default value')
+        ctx.check(len(runs) <= 3, 'the recursion is cut by the default value (3 distinct keys exist)')
         # tables are per inference state
         for fn, table in state_a.memoize_cache.items():
             for key in table:
@@ -394,7 +395,7 @@ class C15c(Obligation):
         for fn, table in state_b.memoize_cache.items():
             for key in table:
                 ctx.check(key[0].inference_state is state_b, 'entries of state B live in the table of state B')
-        again = ctx.call(memo, objs[0], depth=0)
+        again = ctx.call(memo, objs[0])
         ctx.check(again.exc is None and again.value == out.value and len(runs) == len(keys),
                   'a finished key is served from the table, the final value replaced the default')
 
